@@ -335,4 +335,61 @@ theorem processOne_enters (ev : Event) (k : Nat) (l : List Obs) :
     intro r
     exact (kl_poTail _ k' _ r).h
 
+open Verif.Inv.Ctl in
+/-- **The whole batch, from every state**: when the batch loop returns, every event of the batch either found its
+    token dead at its turn (the state `si` in which its turn began: the source was removed, or the slot re-used, by
+    an earlier callback of the same batch or before) or entered `process_events` of the source the token resolved to —
+    `pe k` directly after the log as it stood at that turn.  No event is skipped, errors or not. -/
+theorem batch_enters_each (evs : List Event) : ∀ (first : Option Err) (s : St),
+    match batchLoop evs first s with
+    | .ok _ s' => ∀ (i : Nat) (hi : i < evs.length), ∃ si : St, si.log <+: s'.log ∧
+        (slotDisp si (forgetSub evs[i].key) = none ∨
+         ∃ k, slotDisp si (forgetSub evs[i].key) = some k ∧ si.log ++ [.pe k] <+: s'.log)
+    | .error _ _ => True := by
+  induction evs with
+  | nil =>
+    intro first s
+    show match (pure first : M (Option Err)) s with | .ok _ s' => _ | .error _ _ => True
+    simp only [pure, EStateM.pure]
+    intro i hi
+    cases hi
+  | cons ev rest ih =>
+    intro first s
+    show match (processOne ev >>= fun e => batchLoop rest (if first.isNone then e else first)) s with
+      | .ok _ s' => _ | .error _ _ => True
+    simp only [bind, EStateM.bind]
+    cases h1 : processOne ev s with
+    | error e s1 => trivial
+    | ok e s1 =>
+      simp only
+      have ih' := ih (if first.isNone then e else first) s1
+      cases h2 : batchLoop rest (if first.isNone then e else first) s1 with
+      | error e2 s2 => trivial
+      | ok r s' =>
+        rw [h2] at ih'
+        simp only at ih' ⊢
+        have g1 : s.log <+: s1.log := by
+          have a := (kl_processOne s.log ev).h s List.prefix_rfl
+          rw [h1] at a; exact a
+        have g2 : s1.log <+: s'.log := by
+          have b := (kl_batchLoop s1.log rest (if first.isNone then e else first)).h s1 List.prefix_rfl
+          rw [h2] at b; exact b
+        intro i hi
+        cases i with
+        | zero =>
+          refine ⟨s, g1.trans g2, ?_⟩
+          simp only [List.getElem_cons_zero]
+          cases hd : slotDisp s (forgetSub ev.key) with
+          | none => exact Or.inl rfl
+          | some k =>
+            refine Or.inr ⟨k, rfl, ?_⟩
+            have a := processOne_enters ev k s.log s ⟨hd, rfl⟩
+            rw [h1] at a
+            exact List.IsPrefix.trans a g2
+        | succ j =>
+          have hj : j < rest.length := by simpa using hi
+          obtain ⟨si, p1, p2⟩ := ih' j hj
+          refine ⟨si, p1, ?_⟩
+          simpa only [List.getElem_cons_succ] using p2
+
 end Verif.Inv.LogMono
